@@ -3,11 +3,16 @@
    run (gen/PlanRules.v): each of @NoInject, @With, @Ground forbids injection, and an un-annotated
    predicate is injectible - so the annotations really select the plan; (b) about the reference
    evaluator: its result does not mention annotations at all (it is the oracle every annotated text is
-   compared with on SQLite by props/c08.py).  That the plans agree is decided per instance. *)
+   compared with on SQLite by props/c08.py); (c) about the model of RunInjections/InjectStructure
+   (Core/Inject.v, tied structure-for-structure to compiler/universe.py by props/injecttie.py): over every
+   row choice, the injected structure emits exactly the rows the caller emits when the replaced table holds
+   a row the callee emits - the injected and the not injected plan of a conjunctive rule have the same bag.
+   That whole plans (WITH, @Ground tables, aggregation, combines) agree is decided per instance. *)
 From Coq Require Import List ZArith Bool String.
 Import ListNotations.
 From LV Require Import Exec.PyVal.
 From LVGen Require Import PlanRules.
+From LV Require Import Core.Syntax Core.Eval Core.Elim Core.Extract Core.ExtractProofs Core.Inject Core.InjectProofs.
 
 Theorem C08_noinject_respected : forall a, no_inject a = true -> ok_injection a = false.
 Proof. intros a H. unfold ok_injection. rewrite H. rewrite !orb_true_r. reflexivity. Qed.
@@ -28,3 +33,47 @@ Proof.
   destruct (ground a), (no_inject a), (force_with a); rewrite ?orb_true_r; simpl;
     try discriminate; auto.
 Qed.
+
+(* ---------- (c) injection is invisible in the result ---------- *)
+Theorem C08_injection_is_invisible :
+  forall (app : nat -> list val -> val) (is_x : var -> bool) (st st' : ist) (tid : nat) (cr : crule) (s1 : rs),
+  let e := extract_at cr (i_nv st) (i_nt st) in
+  pre_eliminate is_x (map fst (x_cols e)) (x_rs e) = Done s1 ->
+  inject_one is_x st tid cr = Done st' ->
+  forall (rho : choice) (out : row), apart st cr s1 -> tid < List.length rho ->
+  (denotes app (i_rs st') (i_cols st') rho out <->
+   exists r, denotes app s1 (x_cols e) rho r /\ denotes app (i_rs st) (i_cols st) (set_nth tid r rho) out).
+Proof. intros app is_x st st' tid cr s1 e Hpre Hinj rho out. exact (inject_denotes app is_x st st' tid cr s1 Hpre Hinj rho out). Qed.
+
+Theorem C08_fresh_allocation_keeps_scopes_apart :
+  forall (is_x : var -> bool) (st : ist) (cr : crule) (s1 : rs),
+  pre_eliminate is_x (map fst (x_cols (extract_at cr (i_nv st) (i_nt st)))) (x_rs (extract_at cr (i_nv st) (i_nt st))) = Done s1 ->
+  callee_closed is_x st cr = true -> caller_below st = true -> apart st cr s1.
+Proof. exact side_conditions_apart. Qed.
+
+Theorem C08_injected_query_sound :
+  forall (app : nat -> list val -> val) is_x st st' tid cr s1 final (rho : choice) (out : row),
+  pre_eliminate is_x (map fst (x_cols (extract_at cr (i_nv st) (i_nt st)))) (x_rs (extract_at cr (i_nv st) (i_nt st))) = Done s1 ->
+  inject_one is_x st tid cr = Done st' ->
+  callee_closed is_x st cr = true -> caller_below st = true -> tid < List.length rho ->
+  NoDup (map fst (i_cols st')) -> wf_choice (i_cols st') rho ->
+  eliminate is_x (map fst (i_cols st')) (i_rs st') = Some (inr final) ->
+  sql_row app (i_cols st') final rho = Some out ->
+  exists r, denotes app s1 (x_cols (extract_at cr (i_nv st) (i_nt st))) rho r /\
+            denotes app (i_rs st) (i_cols st) (set_nth tid r rho) out.
+Proof. exact injected_query_sound. Qed.
+
+(* non-vacuity: Q(x, y) :- P(x, z), T(z, y) with P(a, b) :- T(a, c), b == c + 1 is injected, the hypotheses of
+   the theorems hold for it, and the injected structure reads two tables *)
+Definition ex_callee : crule :=
+  {| k_head := [(0, PVar 3); (1, PVar 4)];
+     k_body := [KAtom 1 [(0, PVar 3); (1, PVar 5)]; KUnify (PVar 4) (PBin OAdd (PVar 5) (PLit (VInt 1%Z)))] |}.
+Definition ex_caller : crule :=
+  {| k_head := [(0, PVar 0); (1, PVar 1)];
+     k_body := [KAtom 0 [(0, PVar 0); (1, PVar 2)]; KAtom 1 [(0, PVar 2); (1, PVar 1)]] |}.
+Example C08_injection_example :
+  let isx := fun v => Nat.leb 1000 v in
+  let st := ist_of_rule ex_caller in
+  (exists st', inject_one isx st 0 ex_callee = Done st' /\ map fst (i_tabs st') = [2; 1]) /\
+  callee_closed isx st ex_callee = true /\ caller_below st = true.
+Proof. vm_compute. split; [eexists; split; reflexivity | split; reflexivity]. Qed.
